@@ -56,7 +56,9 @@ import Wax.Proofs.DepthBranch
 import Wax.Proofs.CapRuns
 import Wax.Proofs.CapTile
 import Wax.Proofs.WalkStack
-import Wax.Proofs.Translated
+import Wax.Proofs.TranslatedBehavior
+import Wax.Proofs.TranslatedJoin
+import Wax.Proofs.TranslatedOps
 
 /-!
 Non-vacuity witnesses for the theorems listed in `/verif/tools/obligations.json` that had no
